@@ -146,12 +146,15 @@ def gen(seed: int, i: int, tier: str) -> dict:
     scn = {"pair": list(pair), "ops": ops, "tapes": tapes}
     if restore is not None:
         scn["restore"] = restore
+    if not tapes and rng.random() < 0.2:
+        scn["link"] = "tcp"
+        scn["tapes"] = {"link.chunk": [rng.choice([0, 1, 3, 7]) for _ in range(6)]}
     return scn
 
 
 def _run_one(version, scn):
     out = []
-    w = GwWorld({"pin": version, "metric": True}, scn.get("tapes"))
+    w = GwWorld({"pin": version, "metric": True, "link": scn.get("link", "sim")}, scn.get("tapes"))
     try:
         if scn.get("restore"):
             restore_nodes(w.gateway, scn["restore"])
